@@ -174,11 +174,79 @@ theorem C14_twap_window_at_most_seven (e : Env) (a now : Int) (h : ascendingFrom
       split <;> (try split) <;> omega
     omega
 
+/-- every row of ascending data is at or after the first one -/
+theorem Squeeth.ascending_head_le (l : List Row) (a : Int) (h : ascendingFrom a l) (r0 : Row) (h0 : l.head? = some r0) :
+    ∀ r ∈ l, r0.t ≤ r.t := by
+  cases l with
+  | nil => cases h0
+  | cons y ys =>
+    simp only [List.head?_cons, Option.some.injEq] at h0
+    subst h0
+    have key : ∀ (l : List Row) (c : Int), ascendingFrom c l → ∀ x ∈ l, c ≤ x.t := by
+      intro l
+      induction l with
+      | nil => intro c _ x hx; cases hx
+      | cons z zs ihz =>
+        intro c hc x hx
+        rcases List.mem_cons.mp hx with rfl | hx
+        · exact hc.1
+        · have := ihz (z.t + 1) hc.2 x hx; have := hc.1; omega
+    intro r hr
+    rcases List.mem_cons.mp hr with rfl | hr
+    · exact le_refl _
+    · have := key ys (y.t + 1) h.2 r hr; omega
+
+/-- **window selection for ANY bar spacing** (5-minute, hourly, irregular data, gaps): on strictly ascending data the prices
+    that enter the mean at time `now` are exactly the rows whose timestamp lies in the trailing seven-minute window
+    `[now − 6, now]` — selected by time, not by position —, in the order of the data.  (7 = `sqTwapPeriod`, the window reaches
+    back `sqTwapPeriod − sqTwapBack` = 6 minutes.) -/
+theorem C14_twap_window_any_spacing (e : Env) (a now : Int) (h : ascendingFrom a e.rows) :
+    window e now = e.rows.filter (fun r => decide (now - 6 ≤ r.t) && decide (r.t ≤ now)) ∧
+    (∀ r, r ∈ window e now ↔ r ∈ e.rows ∧ now - 6 ≤ r.t ∧ r.t ≤ now) ∧
+    sqTwapPeriod = 7 ∧ (sqTwapPeriod : Int) - (sqTwapBack : Int) = 6 := by
+  have hw : window e now = e.rows.filter (fun r => decide (now - 6 ≤ r.t) && decide (r.t ≤ now)) := by
+    unfold window
+    apply List.filter_congr
+    intro r hr
+    cases hh : e.rows.head? with
+    | none =>
+      have : winStart e now = now - 6 := by
+        unfold winStart; simp only [hh, C14_constants.1, C14_constants.2.1]; omega
+      rw [this]
+    | some r0 =>
+      have hle := Squeeth.ascending_head_le e.rows a h r0 hh r hr
+      have hs : winStart e now = if now - 6 < r0.t then r0.t else now - 6 := by
+        unfold winStart; simp only [hh, C14_constants.1, C14_constants.2.1]
+        have : now - ((7 : Int) - 1) = now - 6 := by omega
+        simp only [Nat.cast_ofNat, Nat.cast_one, this]
+      rw [hs]
+      by_cases hc : now - 6 < r0.t
+      · rw [if_pos hc]
+        by_cases hb : r.t ≤ now
+        · have h1 : r0.t ≤ r.t := hle
+          have h2 : now - 6 ≤ r.t := by omega
+          simp [h1, h2, hb]
+        · simp [hb]
+      · rw [if_neg hc]
+  refine ⟨hw, ?_, C14_constants.1, by simp only [C14_constants.1, C14_constants.2.1]; norm_num⟩
+  intro r
+  rw [hw, List.mem_filter]
+  simp only [Bool.and_eq_true, decide_eq_true_eq]
+
 /-! ### non-vacuity -/
 example : minuteGrid 0 [⟨0, 1000, 100⟩, ⟨1, 1001, 101⟩, ⟨2, 1002, 102⟩] := ⟨rfl, rfl, rfl, trivial⟩
 example : (window { nf := 1, weth := 1, osqth := 1, now := some 8, uniPrice := 1, uniOpen := true, mean := fun _ => 0,
                     rows := [⟨0, 1, 1⟩, ⟨1, 1, 1⟩, ⟨2, 1, 1⟩, ⟨3, 1, 1⟩, ⟨4, 1, 1⟩, ⟨5, 1, 1⟩, ⟨6, 1, 1⟩, ⟨7, 1, 1⟩,
                              ⟨8, 1, 1⟩, ⟨9, 1, 1⟩] } 8).map (·.t) = [2, 3, 4, 5, 6, 7, 8] := by
+  decide
+
+/-- a 5-minute grid: at minute 20 only the bars at 15 and 20 are inside the seven-minute window [14, 20] (by position, seven rows would be) -/
+example : (window { nf := 1, weth := 1, osqth := 1, now := some 20, uniPrice := 1, uniOpen := true, mean := fun _ => 0,
+                    rows := [⟨0, 1, 1⟩, ⟨5, 1, 1⟩, ⟨10, 1, 1⟩, ⟨15, 1, 1⟩, ⟨20, 1, 1⟩, ⟨25, 1, 1⟩] } 20).map (·.t) = [15, 20] := by
+  decide
+/-- irregular data with a gap: 13, 14 and 17 are inside [11, 17] -/
+example : (window { nf := 1, weth := 1, osqth := 1, now := some 17, uniPrice := 1, uniOpen := true, mean := fun _ => 0,
+                    rows := [⟨0, 1, 1⟩, ⟨1, 1, 1⟩, ⟨9, 1, 1⟩, ⟨13, 1, 1⟩, ⟨14, 1, 1⟩, ⟨17, 1, 1⟩, ⟨30, 1, 1⟩] } 17).map (·.t) = [13, 14, 17] := by
   decide
 
 end Demeter
